@@ -278,7 +278,7 @@ class Trace:
         return "| %s | %s | %s" % (syms, tasks, recs)
 
 
-def gen_trace(rng, names=None, ntasks=None, nrec=None, desc="random"):
+def gen_trace(rng, names=None, ntasks=None, nrec=None, desc="random", ties=False):
     if names is None:
         k = rng.randint(2, 7)
         names = [gen_name(rng) for _ in range(k)]
@@ -302,13 +302,17 @@ def gen_trace(rng, names=None, ntasks=None, nrec=None, desc="random"):
     while any(idx[i] < len(per[i]) for i in range(ntasks)):
         i = rng.choice([j for j in range(ntasks) if idx[j] < len(per[j])])
         inc = rng.choice([0, 1, 7, 40, 333, 999, 1000, 1001, 2500, 12345])
-        if inc == 0 and lasttask != i:
+        if inc == 0 and lasttask != i and not ties:
             inc = 1
         t += inc
         kind, s = per[i][idx[i]]
         idx[i] += 1
         recs.append((kind, tasks[i][0], s, t))
         lasttask = i
+    if ties:
+        # equal time stamps in different tasks: the reader takes the task that comes first in info.tids
+        order = {tid: k for k, (tid, _) in enumerate(tasks)}
+        recs.sort(key=lambda r: (r[3], order[r[1]]))
     exe = gen_exename(rng)
     el = rng.choice(["0.001000000 sec", "0.900000000 sec", "1.500000000 sec", "12.000000001 sec", "150.5 sec"])
     return Trace(names, tasks, recs, exe, gen_cmdline(rng, exe), el, desc)
@@ -830,9 +834,11 @@ def run_cases(ctx, only):
             one = [(100, 100)]
             traces.append(Trace([b"main", n], one, [("E", 100, 0, 2000), ("E", 100, 1, 2100), ("X", 100, 1, 2200), ("X", 100, 0, 2300)],
                                 desc="name_buf overflow"))
-        nrand = 40 if ctx.tier == "quick" else 700
-        for _ in range(nrand):
-            traces.append(gen_trace(rng))
+        nrand = 80 if ctx.tier == "quick" else 5000
+        for k in range(nrand):
+            big = ctx.tier == "thorough" and k % 10 == 0
+            traces.append(gen_trace(rng, ties=(k % 4 == 3), nrec=(rng.choice([80, 200]) if big else None),
+                                    desc="random+ties" if k % 4 == 3 else "random"))
     root = os.path.join(ctx.scratch, "dd")
     jobs = []           # (trace idx, mode, dir, cmd, args)
     plans = []
